@@ -536,3 +536,6 @@ func ReturnsError(fn *ssa.Function) bool {
 	}
 	return false
 }
+
+// InModulePath reports whether the import path belongs to the subject module.
+func InModulePath(p string) bool { return p == Module || strings.HasPrefix(p, Module+"/") }
